@@ -464,3 +464,43 @@ fn c03_heads_pref() {
     assert!(m == wn && prefix_eq(&buf[..], &want, wn), "head is not the RFC 8949 preferred (shortest) head of its argument");
     kani::cover!(m == 5);
 }
+
+// ---- encode::ArrayIter / encode::MapIter: definite form when the size hint is exact, otherwise the indefinite form of the SAME
+// container kind, closed by a break (C03 "balanced container calls yield one item").  BOUNDED: two elements, one-byte items.
+// An iterator with an inexact size hint without the standard adapters' machinery:
+#[derive(Clone)]
+struct Inexact { i: u8, n: u8, base: u8 }
+impl Iterator for Inexact {
+    type Item = u8;
+    fn next(&mut self) -> Option<u8> { if self.i < self.n { self.i += 1; Some(self.base + self.i - 1) } else { None } }
+    fn size_hint(&self) -> (usize, Option<usize>) { (0, None) }
+}
+#[derive(Clone)]
+struct InexactPairs(Inexact);
+impl Iterator for InexactPairs {
+    type Item = (u8, u8);
+    fn next(&mut self) -> Option<(u8, u8)> { self.0.next().map(|k| (k, k)) }
+    fn size_hint(&self) -> (usize, Option<usize>) { (0, None) }
+}
+
+// @harness name=c03_iter_wrappers props=C03 kind=bounded bound="ArrayIter / MapIter over 2 one-byte items, exact (slice iterator) and inexact size hints"
+#[kani::proof]
+#[kani::unwind(5)]
+fn c03_iter_wrappers() {
+    let b: u8 = kani::any();
+    kani::assume(b < 20);
+    let items = [b, b + 1];
+    // exact size hint -> definite array of 2
+    let (buf, n) = enc(&crate::encode::ArrayIter::new(items.iter()));
+    assert!(n == 3 && buf[0] == 0x82 && buf[1] == b && buf[2] == b + 1, "ArrayIter, exact hint: definite array");
+    // inexact size hint -> indefinite ARRAY closed by a break
+    let (buf, n) = enc(&crate::encode::ArrayIter::new(Inexact { i: 0, n: 2, base: b }));
+    assert!(n == 4 && buf[0] == 0x9f && buf[1] == b && buf[2] == b + 1 && buf[3] == 0xff, "ArrayIter, inexact hint: 9f .. ff");
+    // maps
+    let pairs = [(b, b), (b + 1, b + 1)];
+    let (buf, n) = enc(&crate::encode::MapIter::new(pairs.iter().map(|p| (p.0, p.1))));
+    assert!(n == 5 && buf[0] == 0xa2 && buf[1] == b && buf[2] == b && buf[3] == b + 1 && buf[4] == b + 1, "MapIter, exact hint: definite map");
+    let (buf, n) = enc(&crate::encode::MapIter::new(InexactPairs(Inexact { i: 0, n: 2, base: b })));
+    assert!(n == 6 && buf[0] == 0xbf && buf[1] == b && buf[2] == b && buf[3] == b + 1 && buf[4] == b + 1 && buf[5] == 0xff, "MapIter, inexact hint: bf .. ff");
+    kani::cover!(true);
+}
